@@ -362,7 +362,9 @@ def checkHier : Rd Verdict := do
       let S := if o.solver == 0 then Strength.classical 2147483647.0 o.theta 1 rowsDF else Strength.symmetric 2147483647.0 o.theta rowsDF
       let hasEdge := S.zipIdx.any fun (row, i) => row.any fun e => e.1 != i
       if !(c.n < l.n) && hasEdge then
-        return specFail (base ++ "/spec/not_coarser") s!"level {k}: {l.n} -> {c.n} unknowns" feats
+        -- input class: the distributed Ruge-Stuben pass (also the first stage of Falgout and HMIS) on several ranks
+        let cls := if o.solver == 0 && (o.coarsen == 0 || o.coarsen == 2 || o.coarsen == 4) && o.np > 1 && !o.seq then "/distributed_rs_split" else ""
+        return specFail (base ++ "/spec/not_coarser" ++ cls) s!"level {k}: {l.n} -> {c.n} unknowns" feats
       pure ()
   -- Galerkin: A_{k+1} = Pᵀ (A P) up to dropped entries
   match galerkinDefect H with
